@@ -81,11 +81,11 @@ def _build(ti):
     H = tp.TypeConstructor('H', [Y], hsup)
     U = tp.TypeParameter('U', bound=A if gb else None)
     vb = {0: None, 1: U, 2: G.new([U]), 3: F.new([tp.WildCardType(U, tp.Covariant)])}[kb]
-    V = tp.TypeParameter('V', bound=vb)
+    V = tp.TypeParameter('V', univ.VAR[(ti // 5) % 3], bound=vb)
     ksup = {0: [univ.ANY], 1: [G.new([V])], 2: [F.new([U])]}[ks]
     K = tp.TypeConstructor('K', [U, V], ksup)
     desc = dict(Yvariance=['inv', 'out', 'in'][(ti // 3) % 3], F='F<%s Z>' % ['', 'out', 'in'][fv], G='G<X%s> : %s' % (' : A' if gb else '', G_SUPS[gs_]),
-                H='H<Y> : %s' % H_SUPS[hs_], K='K<U, V : %s> : %s' % (K_BOUNDS[kb], K_SUPS[ks]))
+                H='H<Y> : %s' % H_SUPS[hs_], K='K<U, %sV : %s> : %s' % (['', 'out ', 'in '][(ti // 5) % 3], K_BOUNDS[kb], K_SUPS[ks]))
     return [A, B], [F, G, H, K], desc
 
 
@@ -170,6 +170,12 @@ def h_history(eng, K, pool_extra, ntables):
                 probs.append('%s = %s, reference %s' % (log[-1], show(got), show(want)))
             if raw(pattern) != before:
                 probs.append('%s modified its input' % log[-1])
+            # a type variable that is not replaced stays the same variable (its declared variance included)
+            kept = {n: v for n, v in _variables(raw(pattern)).items() if n not in {k.name for k in m}}
+            now = _variables(raw(r))
+            for n, v in kept.items():
+                if n in now and now[n] != v and not any(n in _variables(raw(x)) for x in m.values()):
+                    probs.append('%s changed the declared variance of the type variable %s' % (log[-1], n))
             ground = all(not v.has_type_variables() for v in m.values())
             if full and ground:
                 # the statement speaks of type-variable-free results only
@@ -232,6 +238,21 @@ def h_history(eng, K, pool_extra, ntables):
         return [Ob('substitution|%s|%s' % (_opkinds(log), desc_key(desc)), False,
                    dict(table=desc, history=log, problems=probs[:3]))]
     return [Ob('history-ok', True)]
+
+
+def _variables(rt, acc=None):
+    """type variables of a raw snapshot: name -> set of variance values seen"""
+    acc = {} if acc is None else acc
+    if isinstance(rt, tuple) and rt:
+        if rt[0] == 'V':
+            acc.setdefault(rt[1], set()).add(rt[2])
+            _variables(rt[3], acc)
+        elif rt[0] == 'P':
+            for x in rt[2]:
+                _variables(x, acc)
+        elif rt[0] == 'W':
+            _variables(rt[2], acc)
+    return acc
 
 
 def _unwrap(a):
